@@ -27,6 +27,10 @@ Definition subset {A} (eqb : A -> A -> bool) (a b : list A) : bool := forallb (f
 
 Definition value_pair (p : owner * owner) : bool := protected (fst p) && protected (snd p).
 
+(* pairs of two operator objects are not compared: all operators of one domain reach its cells (quadratically many
+   pairs, no information); operator-value pairs and value-value pairs are *)
+Definition informative (p : owner * owner) : bool := protected (fst p) || protected (snd p).
+
 (* the model's predictions for the observed steps; `pend` accumulates the values the unobserved operations of a
    composite call may have changed *)
 Fixpoint predict (c : cfg) (m : mstate) (pend : list owner) (steps : list stepobs)
@@ -36,7 +40,7 @@ Fixpoint predict (c : cfg) (m : mstate) (pend : list owner) (steps : list stepob
   | s :: r =>
       let '(m', evs) := step c m (so_op s) in
       let ch := pend ++ may_change m evs in
-      if so_observed s then (ch, sharing m') :: predict c m' [] r else predict c m' ch r
+      if so_observed s then (ch, filter informative (sharing m')) :: predict c m' [] r else predict c m' ch r
   end.
 Definition observed (steps : list stepobs) : list stepobs := filter so_observed steps.
 
@@ -89,9 +93,11 @@ Definition threads_clean (t : tobs) : bool :=
 Definition thread_ok (cs : case) : bool := match c_thread cs with Some t => threads_clean t | None => true end.
 
 (* ---------------------------------------------------------------- verdict *)
-Definition model_clean (c : cfg) (cs : case) : bool :=
-  forallb (fun p => match fst p with [] => true | _ => false end && negb (existsb value_pair (snd p)))
-          (predict c init [] (c_steps cs)).
+Definition preds_t := list (list owner * list (owner * owner)).
+
+Definition model_clean_p (preds : preds_t) : bool :=
+  forallb (fun p => match fst p with [] => true | _ => false end && negb (existsb value_pair (snd p))) preds.
+Definition model_clean (c : cfg) (cs : case) : bool := model_clean_p (predict c init [] (c_steps cs)).
 
 Definition impl_clean (cs : case) : bool :=
   forallb (fun s => match so_changed s with [] => true | _ => false end && negb (existsb value_pair (so_sharing s)))
@@ -100,17 +106,19 @@ Definition impl_clean (cs : case) : bool :=
 
 (* the implementation's deviations are all among those the model of this configuration (i.e. the open findings)
    predicts: only then may a finding class excuse the case *)
-Definition explained (c : cfg) (cs : case) : bool :=
-  all2 step_explained (observed (c_steps cs)) (predict c init [] (c_steps cs))
+Definition explained_p (c : cfg) (cs : case) (preds : preds_t) : bool :=
+  all2 step_explained (observed (c_steps cs)) preds
   && (negb (exact c) || (c_repeat_ok cs && thread_ok cs)).
+Definition explained (c : cfg) (cs : case) : bool := explained_p c cs (predict c init [] (c_steps cs)).
 
 Definition judge (cs : case) : verdict :=
   let c := c_cfg cs in
-  {| v_agree := all2 (step_agree c) (observed (c_steps cs)) (predict c init [] (c_steps cs))
+  let preds := predict c init [] (c_steps cs) in
+  {| v_agree := all2 (step_agree c) (observed (c_steps cs)) preds
                 && (negb (exact c) || (c_repeat_ok cs && thread_ok cs))
                 && match c_thread cs with Some t => threads_agree c t | None => true end;
      v_ok := impl_clean cs;
-     v_known := negb (model_clean c cs) && explained c cs |}.
+     v_known := negb (model_clean_p preds) && explained_p c cs preds |}.
 
 Definition run (cases : list case) : string := summary judge cases.
 
